@@ -211,6 +211,9 @@ class Ctx:
             f.impl_ty = ity
             self.byname.setdefault((ity, f.method), []).append(f)
             self.byname.setdefault((f.module, f.method), []).append(f)
+            if ity is None:  # e.g. #[derive] impls: index by self / return type
+                p0 = short_ty(f.params[0][1]).lstrip("&") if f.params else short_ty(f.ret)
+                self.byname.setdefault(("derive:" + p0, f.method), []).append(f)
         self.panics = []
         self.steps = 0
         self.summarize = None
@@ -232,7 +235,7 @@ class Ctx:
                     pass
 
     def find(self, ity, method):
-        c = self.byname.get((ity, method), [])
+        c = self.byname.get((ity, method), []) or self.byname.get(("derive:" + str(ity), method), [])
         if len(c) != 1:
             raise Unsupported("cannot resolve %s::%s (%d candidates)" % (ity, method, len(c)))
         return c[0]
@@ -411,6 +414,13 @@ def assign(ctx, fn, env, place, val):
     if re.match(r"^_\d+$", place):
         env[place] = val
         return
+    m = re.match(r"^\((_\d+)\.(\d+): .*\)$", place)
+    if m and m.group(1) in env and env[m.group(1)].kind == "struct":
+        old = env[m.group(1)]
+        fields = list(old.fields)
+        fields[int(m.group(2))] = val
+        env[m.group(1)] = V("struct", ty=old.ty, fields=fields)  # copy on write; earlier references keep the old value
+        return
     raise Unsupported("assignment to place " + place)
 
 
@@ -547,6 +557,15 @@ def rvalue(ctx, fn, env, s, dest_ty=None):
         return V("ref", target=place_value(ctx, fn, env, m.group(1)))
     if s.startswith("copy ") or s.startswith("move ") or s.startswith("const "):
         return operand(ctx, fn, env, s)
+    m = re.match(r"^\((.*)\)$", s)
+    if m and "," in m.group(1):  # tuple
+        return V("struct", ty="tuple", fields=[operand(ctx, fn, env, x) for x in split_top(m.group(1))])
+    m = re.match(r"^(?:[\w]+::)*(\w+) \{ (.*) \}$", s)
+    if m:  # struct literal, fields in declaration order
+        fields = []
+        for part in split_top(m.group(2)):
+            fields.append(operand(ctx, fn, env, part.split(": ", 1)[1]))
+        return V("struct", ty=m.group(1), fields=fields)
     # enum constructors
     m = re.match(r"^(?:[\w]+::)*(\w+)(?:::<.*?>)?::(\w+)(?:\((.*)\))?$", s)
     if m and m.group(1) in ctx.enums:
@@ -565,6 +584,11 @@ def call(ctx, callee, argv, depth):
         a = argv[0]
         t = " ".join("((_ zero_extend 31) ((_ extract %d %d) %s))" % (i, i, a.term) for i in range(8))
         return [("true", V("bv", term="(bvadd %s)" % t, w=32))]
+    if callee == "<bool as Default>::default":
+        return [("true", V("bool", term="false"))]
+    m0 = re.match(r"^<(\w+) as Clone>::clone$", callee)
+    if m0 and argv and (argv[0].target if argv[0].kind == "ref" else argv[0]).kind in ("enum", "bool", "bv"):
+        return [("true", argv[0].target if argv[0].kind == "ref" else argv[0])]
     if callee in ("<u8 as Into<char>>::into", "<char as From<u8>>::from"):
         return [("true", V("bv", term="((_ zero_extend 24) %s)" % argv[0].term, w=32))]
     m = re.match(r"^<&?(\w+) as PartialEq>::(eq|ne)$", callee)
